@@ -91,37 +91,65 @@ func (c *Ctx) INV(rule string) []report.Obligation {
 		tokens map[string]bool
 	}
 	var sums []retSum
-	fi := prog.Info(f)
-	for _, r := range returnsOf(f) {
-		if !c.dyn.definitelyNonNil(retValue(r, 0), r.Block(), 2) {
-			continue
-		}
-		toks := map[string]bool{}
-		// conditions this return depends on within one iteration: its direct control dependences, and
-		// transitively those of the deciding branches as long as they dominate the return (plain
-		// transitive control dependence would run around the loop's back edge and make every return
-		// depend on every condition of the loop body)
-		seenB := map[*ssa.BasicBlock]bool{}
-		work := []*ssa.BasicBlock{r.Block()}
-		first := true
-		for len(work) > 0 {
-			blk := work[0]
-			work = work[1:]
-			for _, d := range fi.ControlDeps(blk) {
-				if seenB[d.Branch] || (!first && !d.Branch.Dominates(r.Block())) {
-					continue
+	// the rules may live in helpers checkConsistency delegates to (their error is returned): error returns of
+	// the loader functions it calls, two levels deep, count as its own
+	fset := []*ssa.Function{f}
+	seenF := map[*ssa.Function]bool{f: true}
+	for depth, frontier := 0, []*ssa.Function{f}; depth < 2 && len(frontier) > 0; depth++ {
+		var next []*ssa.Function
+		for _, g := range frontier {
+			for _, cs := range callSites(g, func(com *ssa.CallCommon) bool {
+				cal := com.StaticCallee()
+				if cal == nil || !c.P.InModule(cal) || cal.Blocks == nil || !strings.HasPrefix(c.P.FuncID(cal), "loader.") {
+					return false
 				}
-				seenB[d.Branch] = true
-				if iff, ok := d.Branch.Instrs[len(d.Branch.Instrs)-1].(*ssa.If); ok {
-					c.tokensOf(iff.Cond, 10, toks, map[ssa.Value]bool{})
-				}
-				if d.Branch.Dominates(r.Block()) {
-					work = append(work, d.Branch)
+				res := cal.Signature.Results()
+				return res.Len() >= 1 && isErrorType(res.At(res.Len()-1).Type())
+			}) {
+				cal := cs.Common().StaticCallee()
+				if !seenF[cal] {
+					seenF[cal] = true
+					fset = append(fset, cal)
+					next = append(next, cal)
 				}
 			}
-			first = false
 		}
-		sums = append(sums, retSum{c.P.InstrPos(r), toks})
+		frontier = next
+	}
+	for _, f := range fset {
+		fi := prog.Info(f)
+		for _, r := range returnsOf(f) {
+			ei := f.Signature.Results().Len() - 1
+			if ei < 0 || !c.dyn.definitelyNonNil(retValue(r, ei), r.Block(), 2) {
+				continue
+			}
+			toks := map[string]bool{}
+			// conditions this return depends on within one iteration: its direct control dependences, and
+			// transitively those of the deciding branches as long as they dominate the return (plain
+			// transitive control dependence would run around the loop's back edge and make every return
+			// depend on every condition of the loop body)
+			seenB := map[*ssa.BasicBlock]bool{}
+			work := []*ssa.BasicBlock{r.Block()}
+			first := true
+			for len(work) > 0 {
+				blk := work[0]
+				work = work[1:]
+				for _, d := range fi.ControlDeps(blk) {
+					if seenB[d.Branch] || (!first && !d.Branch.Dominates(r.Block())) {
+						continue
+					}
+					seenB[d.Branch] = true
+					if iff, ok := d.Branch.Instrs[len(d.Branch.Instrs)-1].(*ssa.If); ok {
+						c.tokensOf(iff.Cond, 10, toks, map[ssa.Value]bool{})
+					}
+					if d.Branch.Dominates(r.Block()) {
+						work = append(work, d.Branch)
+					}
+				}
+				first = false
+			}
+			sums = append(sums, retSum{c.P.InstrPos(r), toks})
+		}
 	}
 	c.Stats[rule+".error_returns"] = len(sums)
 	for _, ir := range consistencyRules {
